@@ -145,7 +145,8 @@ def run(ctx, out):
                 "(several seeds), workers 1/2/4/16/64, both drivers; every run's exit status and destination snapshot (paths, "
                 "kinds, bytes, link text, mode, mtime ns, xattrs, owner) must equal the reference run's; every trace is projected "
                 "to open/block/finalise/inline events and judged by ConcOutcome.history_ok inside Coq; non-trivial = run with >= 2 "
-                "workers and a multi-block file; distinct = (case, driver, workers, seed)")
+                "workers and a multi-block file; plus second copies with --backup numbered over the result of a first copy, many files "
+                "with confusable names (non-UTF-8 twins, backup-like suffixes), same comparison across drivers / workers / seeds; distinct = (case, driver, workers, seed)")
     ncases = 6 if quick else 40
     seeds = [1, 2, 3] if quick else list(range(1, 11))
     worker_sets = [1, 2, 4, 16] if quick else [1, 2, 3, 4, 8, 16, 64]
@@ -228,6 +229,58 @@ def run(ctx, out):
                 enc, paths = encode_history(files, events, bs)
                 minputs.append(enc)
                 mmeta.append((rep, paths, driver, w))
+        shutil.rmtree(d, ignore_errors=True)
+    # ---- the same question for an OVERWRITE with numbered backups: a second copy, with changed contents, over the result of
+    #      a first one — many small files whose names are easily confused (differing only in bytes that are not UTF-8, or in
+    #      the backup-like suffix), so that every file's backup must get a name of its own whatever the order of the workers
+    ncases2 = 2 if quick else 12
+    for k2 in range(ncases2):
+        d = os.path.join(d0, "bk%d" % k2)
+        srcb = os.path.join(os.fsencode(d), b"src")
+        names = []
+        for sub in range(6 if quick else 20):
+            sd_ = os.path.join(srcb, b"d%02d" % sub)
+            os.makedirs(sd_)
+            for nm in (b"n\xff", b"n\xfe", b"n\xc3\xa9", b"plain", b"plain.~1~", b"n"):
+                open(os.path.join(sd_, nm), "wb").write(b"first " + nm + b" %d\n" % sub)
+                names.append(os.path.join(b"d%02d" % sub, nm))
+        first = xcp.run_plain([ctx.bins["xcp"], "-r", "-T", "--driver", "parfile", "-w", "1", "src", "dst0"], d)
+        if first.exit != 0:
+            out.violation("first copy failed: %s" % first.stderr[-200:], dict(case="backup-overwrite", k=k2))
+            shutil.rmtree(d, ignore_errors=True)
+            continue
+        for rel in names:
+            open(os.path.join(srcb, rel), "wb").write(b"second version of " + rel + b"\n" * 3)
+        ref_snap = ref_exit = None
+        runs2 = [("parfile", 1, None)] + [(drv, w, sd) for drv in ("parfile", "parblock") for w in (2, 4, 16) for sd in ((1, 2) if quick else (1, 2, 3, 4, 5))]
+        if quick:
+            rest = runs2[1:]
+            rng.shuffle(rest)
+            runs2 = runs2[:1] + rest[:8]
+        for (driver, w, sd) in runs2:
+            dst = os.path.join(d, "dst")
+            shutil.rmtree(dst, ignore_errors=True)
+            shutil.copytree(os.path.join(os.fsencode(d), b"dst0"), os.fsencode(dst), symlinks=True)
+            argv = [ctx.bins["xcp"], "-r", "-T", "--backup", "numbered", "--driver", driver, "-w", str(w), "src", "dst"]
+            kw = dict(seed=sd * 104729 + k2, hold_permille=rng.choice([100, 250]), hold_maxms=rng.choice([2, 6])) if sd is not None else {}
+            r = xcp.run_supervised(sup, argv, d, d, tag="b", timeout_ms=60000, **kw)
+            out.case(("backup-overwrite", k2, driver, w, sd), nontrivial=(w >= 2))
+            out.count("backup_overwrite_runs")
+            rep = dict(case="second copy with --backup numbered over the first, %d files with confusable names" % len(names), argv=argv[1:],
+                       seed=kw.get("seed"))
+            snap = {p_: v for p_, v in dest_snapshot(dst).items()}
+            # mtimes of the fresh copies are the sources' (identical across runs); backups keep the first copy's
+            if ref_snap is None:
+                ref_snap, ref_exit = snap, r.exit
+                if r.exit != 0:
+                    out.violation("reference overwrite failed: %s" % r.stderr[-200:], rep)
+                    break
+            elif r.exit != ref_exit:
+                out.violation("exit status %d differs from the reference run's %d" % (r.exit, ref_exit), rep)
+            elif snap != ref_snap:
+                diff = [p_ for p_ in sorted(set(snap) | set(ref_snap)) if snap.get(p_) != ref_snap.get(p_)][:4]
+                out.violation("overwrite with numbered backups: the destination differs from the reference run's (driver %s, %d workers, seed %r) "
+                              "at %r" % (driver, w, kw.get("seed"), diff), rep)
         shutil.rmtree(d, ignore_errors=True)
     if ctx.model_ok and minputs:
         res = core.run_model("run_history", minputs, shard=8, tag="c06")
